@@ -291,6 +291,9 @@ func runC04(r *run) {
 	}
 	c04PreparedLists(r, g)
 	c04GroupGrows(r)
+	envProbe(r, false, "tz", "TZ=Europe/Berlin")
+	envProbe(r, false, "tz", "TZ=Australia/Sydney")
+	envProbe(r, false, "oneline", "DEBUG=1")
 	// the quoting functions themselves, and the standard readers of their output
 	nq := 1500
 	if r.tier == "thorough" {
